@@ -45,6 +45,8 @@ type DialScenario struct {
 	// the caller has serialised the spec's transport-parameter extension before dialing (sizing it, building a reference
 	// ClientHello): whatever the extension object caches must not reach the wire of a later dial
 	PreLen bool `json:"pre_serialised,omitempty"`
+	// the application's tls.Config names more protocols than the fingerprint's ALPN extension: the wire carries the spec's
+	AltALPN bool `json:"alt_alpn,omitempty"`
 }
 
 func (s *DialScenario) KSeed() uint64 { return s.Seed }
@@ -192,6 +194,7 @@ func genDial(seed uint64, tier string) KScenario {
 	sc.Quick = sc.Dials > 1 && !sc.Fresh && r.P(0.4)
 	sc.Early = sc.Dials > 1 && !sc.Quick && r.P(0.3)
 	sc.PreLen = r.P(0.2)
+	sc.AltALPN = r.P(0.25)
 	return sc
 }
 
@@ -224,6 +227,21 @@ func runDial(t *testing.T, ksc KScenario, res *KResult) {
 	}
 	if q := wQTPExt(nodes.Spec); sc.PreLen && q != nil {
 		q.Len()
+	}
+	if sc.AltALPN {
+		nodes.CTLS.NextProtos = []string{wALPN, "h3-29"}
+	}
+	// the fingerprint's ALPN list as the caller wrote it, before any dial
+	var alpn0 []byte
+	if nodes.Spec != nil && nodes.Spec.ClientHelloSpec != nil {
+		for _, e := range nodes.Spec.ClientHelloSpec.Extensions {
+			if a, ok := e.(*tls.ALPNExtension); ok {
+				for _, p := range a.AlpnProtocols {
+					alpn0 = append(alpn0, byte(len(p)))
+					alpn0 = append(alpn0, p...)
+				}
+			}
+		}
 	}
 	wo := NewWireOracles(w, nodes, res)
 	wo.refusedHello = sc.Cfg.Derive != nil && sc.Cfg.Derive.ISCID != ""
@@ -515,6 +533,14 @@ func runDial(t *testing.T, ksc KScenario, res *KResult) {
 		}
 		checkInitialFlight(w, nodes, sc, di, cp, report, res)
 		checkClientHello(w, nodes, sc, di, cp, report, res)
+		if alpn0 != nil {
+			for _, e := range cp.conn.CH.Exts {
+				// body: 2-byte list length, then the length-prefixed protocol names
+				if e.Type == 0x10 && (len(e.Body) < 2 || !bytes.Equal(e.Body[2:], alpn0)) {
+					report("C11", "ALPN list on the wire differs from the list the caller's spec held before the dial", "dial #%d: wire %x, spec %x", di, e.Body, alpn0)
+				}
+			}
+		}
 		time.Sleep(50 * time.Millisecond)
 	}
 	if d := sc.Cfg.Derive; d != nil && d.tokBacking != nil {
